@@ -304,14 +304,50 @@ def _sh_dash_in_id(cx, g, field):
             and T.attr_chain(t[2][1]) == "%s.id" % cx.selfname)
 
 
-def _sh_additional_without_unified(cx, g, field):
-    t, pol = g
-    if not pol or t[0] != "boolop" or t[1] != "and":
-        return False
-    parts = list(t[2])
-    a = any(T.attr_chain(x) == "%s.additional_variants" % cx.selfname for x in parts)
-    b = any(x[0] == "unary" and x[1] == "not" and T.attr_chain(x[2]) == "%s.unified" % cx.selfname for x in parts)
-    return a and b and len(parts) == 2
+def flat_atoms(guards):
+    """the guards of an event as a flat conjunction of (term, polarity) atoms: `if a and b` and `if a: if b` alike"""
+    out = []
+    for g in guards:
+        t, pol = T.strip_not(g[0], g[1])
+        if pol and t[0] == "boolop" and t[1] == "and":
+            for x in t[2]:
+                out.append(T.strip_not(x, True))
+        elif not pol and t[0] == "boolop" and t[1] == "or":
+            for x in t[2]:
+                out.append(T.strip_not(x, False))
+        else:
+            out.append((t, pol))
+    return out
+
+
+def set_without_companion(cx, guards, attr, comp):
+    """the atoms of ``guards`` saying `self.<attr> is set and self.<comp> is not`, or [] when they do not say that"""
+    atoms = flat_atoms(guards)
+    a = [x for x in atoms if x[1] and T.attr_chain(x[0]) == "%s.%s" % (cx.selfname, attr)]
+    b = [x for x in atoms if not x[1] and T.attr_chain(x[0]) == "%s.%s" % (cx.selfname, comp)]
+    return [a[0], b[0]] if a and b else []
+
+
+def omission_refused(model, cls, attr, comp):
+    """validate() refuses an object whose ``attr`` is set while ``comp`` is not (so a writer that only stores attr next to comp
+    loses nothing)"""
+    for a in facts.assertions_of(model, cls):
+        if a.kind != "raise":
+            continue
+        cx = facts.fctx(model, FuncRef(a.defcls.module, a.defcls, a.defcls.methods[a.method]))
+        used = set_without_companion(cx, a.guards, attr, comp)
+        if used:
+            rest = [x for x in flat_atoms(g for g in a.guards if g[0][0] != "exc") if x not in used]
+            if not rest:
+                return True
+    return False
+
+
+def _sh_additional_without_unified(cx, guards, field):
+    return set_without_companion(cx, guards, "additional_variants", "unified")
+
+
+_sh_additional_without_unified.multi = True
 
 
 def _sh_platform_not_in_tree(cx, g, field):
@@ -393,12 +429,20 @@ def r_val_strength_rows(model, rep, rows, rule_id="R-VAL-STRENGTH"):
                 if meth and a.method != meth:
                     ok = False
                     msgs.append("expected in %s" % meth)
-                hit = [g for g in a.guards if RAISE_SHAPES[shape](cx, g, field)]
+                shape_fn = RAISE_SHAPES[shape]
+                if getattr(shape_fn, "multi", False):
+                    # the shape is a conjunction that may be spread over nested ifs: decided on the flattened atoms
+                    used = shape_fn(cx, a.guards, field)
+                    hit = used
+                    rest_guards = [x for x in flat_atoms(g for g in a.guards if g[0][0] != "exc") if x not in used]
+                else:
+                    hit = [g for g in a.guards if shape_fn(cx, g, field)]
+                    rest_guards = [g for g in a.guards if g not in hit and g[0][0] != "exc"]
                 if not hit:
                     ok = False
                     msgs.append("raise at line %s is not conditioned on the documented test (%s)" % (a.lineno, shape))
                 else:
-                    rest = [canon_guard(cx, g) for g in a.guards if g not in hit and g[0][0] != "exc"]
+                    rest = [canon_guard(cx, g) for g in rest_guards]
                     extra = [g for g in rest if g not in allowed_guards]
                     if extra:
                         ok = False
